@@ -8,7 +8,7 @@ A=$(run_demo)
 if ! git -C $WT apply $DIR/patch.diff 2>/tmp/apply_$$.log; then
   if ! git -C $WT apply --3way $DIR/patch.diff 2>>/tmp/apply_$$.log; then echo "APPLY-FAILED"; cat /tmp/apply_$$.log; git -C /repo worktree remove --force $WT; exit 3; fi
 fi
-git -C $WT diff > /tmp/seed_rebased_$$.diff
+git -C $WT diff HEAD > /tmp/seed_rebased_$$.diff
 B=$(run_demo); tail -2 /tmp/demo_$$.log
 T=$(cd $WT && PYTHONPATH=$WT/src /venv/bin/python -m pytest -p no:cacheprovider -n 12 --timeout=900 --continue-on-collection-errors -q 2>&1 | tail -1 | sed 's/\x1b\[[0-9;]*m//g')
 echo "demo without=$A with=$B tests: $T"
